@@ -135,7 +135,11 @@ func mkStep(r *kernel.Rand, op string, h *harness, hostile float64) kernel.Step 
 			// machine has moved on or after the object was changed (touch=1)
 			k = "rechecked"
 		}
-		st := kernel.St(op, "kind", k, "r", int64(r.Uint64()>>2))
+		rv := int64(r.Uint64() >> 2)
+		if k != "rechecked" && op != "force" && kernel.NewRand(kernel.Derive(uint64(rv), "inplace")).Bool(0.12) {
+			k = "inplace"
+		}
+		st := kernel.St(op, "kind", k, "r", rv)
 		if k == "rechecked" {
 			st.A["touch"] = int64(r.Intn(2))
 		}
@@ -211,7 +215,11 @@ func genC02(r *kernel.Rand, tier string) []kernel.Step {
 			} else if op == "check" && r.Bool(0.5) {
 				k = "valid" // candidates that pass, to be offered again later
 			}
-			st := kernel.St(op, "kind", k, "r", int64(r.Uint64()>>2))
+			rv := int64(r.Uint64() >> 2)
+			if k != "rechecked" && kernel.NewRand(kernel.Derive(uint64(rv), "inplace")).Bool(0.12) {
+				k = "inplace"
+			}
+			st := kernel.St(op, "kind", k, "r", rv)
 			if k == "mut" {
 				st.S["m"] = gen.Mutations[r.Intn(len(gen.Mutations))]
 			}
@@ -276,6 +284,14 @@ func (e Engine) Generate(prop, tier string, run int, seed uint64) *kernel.Scenar
 		sc.Steps = genProgram(r, prop, n, own, app, r.Range(3, maxLen), 0.25, 0.3)
 	case "C02":
 		sc.Steps = genC02(r, tier)
+	}
+	// restarts: at a few points the machine is rebuilt from itself
+	rr := kernel.NewRand(kernel.Derive(seed, "restore"))
+	if rr.Bool(0.4) {
+		for k := rr.Range(1, 3); k > 0; k-- {
+			pos := rr.Intn(len(sc.Steps) + 1)
+			sc.Steps = append(sc.Steps[:pos], append([]kernel.Step{kernel.St("restore")}, sc.Steps[pos:]...)...)
+		}
 	}
 	return sc
 }
